@@ -87,6 +87,16 @@ CHECKS['C10'] = dict(
     note='DataReference.resolve stubbed to a distinct token per reference; is_raw=True (fill_in skipped); native sweep over a 6-letter alphabet.',
     design='DESIGN.md section 2 C10')
 
+CHECKS['C03'] = dict(
+    engine='symx+crosshair',
+    technique='bounded symbolic execution (z3, own executor) of the real in-memory loader over a symbolic DAG skeleton vs an independent expander; CrossHair on the textual rewriting functions',
+    text='E1: every skeleton of 4 (thorough 5) components over 2 (3) stages - forward edge subsets, aggregate flags, replica counts 1..3, '
+         'literal or via a variable, relative/absolute spellings, file paths - is loaded through the real graphFromFlowIR and its nodes, '
+         'edges, per-copy references, arguments and replica variable are compared with an independent expander (exhaustive within the bound). '
+         'E2: CrossHair searches the textual rewriting (compile_component_replica/aggregate) with a symbolic producer name; bug-hunting strength.',
+    note='E1 uses concrete non-overlapping names; the suffix-overlap rewriting defect found by E2 is a listed known finding.',
+    design='DESIGN.md section 2 C03')
+
 NOT_APPLICABLE = {
     'C07': 'round trip through the real file system, PyYAML (C) and Experiment construction: nothing on the path can be made symbolic; the technique would degenerate to example testing',
     'C15': 'quantifies over processes with different hash seeds / directory listing orders, which are not values inside one symbolic execution',
